@@ -291,9 +291,19 @@ def run(chk, gate, status):
                         "the container used as solvent is free of the named solutes (known finding D10 otherwise)",
                         "LAPACK is replaced by exact Gaussian elimination in the model; ill-conditioned systems are not generated"]
     cov = histcheck.run(chk, gens, oracle, 'C05', RULE, nontrivial, rtol=1e-7)
+    for msg in oracles.wv_runtime_probe()[:2]:
+        cov['oracle_failures'] += 1
+        chk.violation(msg, {'kind': 'wv-runtime'})
     cov['operations_under_configuration_variants'] = histcheck.variants(chk, gens, oracle, 'C05v', limit=10 if chk.tier == 'quick' else 60)
     return cov
 
 
 def replay(path):
+    import json as _json
+    if _json.load(open(path)).get('kind') == 'wv-runtime':
+        f = oracles.wv_runtime_probe()
+        for m in f:
+            print('PROPERTY FAILS:', m)
+        print('property', 'FAILS' if f else 'HOLDS', 'on this input')
+        return 1 if f else 0
     return histcheck.replay(path, oracle)
